@@ -64,12 +64,29 @@ func gen(seed int64, tier string) Scenario {
 	if r.Intn(3) == 0 {
 		ladderAt = r.Intn(n)
 	}
+	abortsAt := -1
+	if r.Intn(3) == 0 {
+		abortsAt = r.Intn(n)
+	}
 	holdAt := -1
 	if r.Intn(3) == 0 {
 		holdAt = r.Intn(n)
 	}
 	for i := 0; i < n; i++ {
 		tp := func() (string, int32) { return topics[r.Intn(2)], int32(r.Intn(2)) }
+		if i == abortsAt {
+			// aborted transactions of two producers interleaved in one partition (P1, P2, P1 in marker order), read in one go:
+			// the aborted-transaction index of the fetch response lists them alternating
+			t, p := tp()
+			sc.Steps = append(sc.Steps,
+				Step{Op: "endtxn", P: 1, Commit: false}, Step{Op: "endtxn", P: 2, Commit: false},
+				Step{Op: "produce", P: 1, Topic: t, Part: p, N: 2}, Step{Op: "produce", P: 2, Topic: t, Part: p, N: 2},
+				Step{Op: "endtxn", P: 1, Commit: false}, Step{Op: "produce", P: 1, Topic: t, Part: p, N: 1},
+				Step{Op: "endtxn", P: 2, Commit: false}, Step{Op: "endtxn", P: 1, Commit: false},
+				Step{Op: "produce", P: 2, Topic: t, Part: p, N: 2}, Step{Op: "endtxn", P: 2, Commit: true},
+				Step{Op: "produce", P: 1, Topic: t, Part: p, N: 1}, Step{Op: "endtxn", P: 1, Commit: true},
+				Step{Op: "produce", P: 0, Topic: t, Part: p, N: 1}, Step{Op: "sleep", Ms: 100}, Step{Op: "poll", N: 0}, Step{Op: "sleep", Ms: 60}, Step{Op: "poll", N: 0})
+		}
 		if i == holdAt {
 			// a fetch response with records is held while it is being decoded; meanwhile the partition's leader moves and the
 			// client learns about it (its consumer session stops under the half-processed fetch)
